@@ -1075,6 +1075,8 @@ class Interp:
         ordinal = frame.loop_ordinal
         frame.loop_ordinal += 1
         it = self.resolve_iterable(self.eval(node.iter, frame))
+        if type(it).__name__ == "SSeqGen":
+            it = it.filtered  # a generator expression over a symbolic sequence is iterated as that (lazy) sequence
         spec = self.loop_specs.get((frame.qn, ordinal))
         if spec is not None:
             return spec(self, node, frame, it)
@@ -1872,7 +1874,22 @@ class Interp:
         if isinstance(container, (str, SStr)):
             if isinstance(container, str) and isinstance(item, str):
                 return item in container
-            return str_contains(_as_sstr(container), _as_sstr(item))
+            hay = _as_sstr(container)
+            if isinstance(item, str) and len(item) == 1 and hay.z3() is None and all(isinstance(p, (str, Atom, FmtInt, FmtReal)) for p in hay.parts):
+                # single character in a string with opaque pieces: one uninterpreted fact per (piece, character)
+                acc = False
+                for p in hay.parts:
+                    if isinstance(p, str):
+                        if item in p:
+                            return True
+                    elif _piece_alphabet_excludes(p, item):
+                        continue
+                    elif isinstance(p, Atom):
+                        acc = _or(acc, atom_has_char(p, item))
+                    else:
+                        raise Unsupported("character test on a number rendering")
+                return acc
+            return str_contains(hay, _as_sstr(item))
         if isinstance(container, SSeq):
             raise Unsupported("membership in symbolic sequence without contract")
         if hasattr(container, "sym_contains"):
@@ -2235,6 +2252,11 @@ def _is_canonical_int(s):
     if s == "-0":
         return False
     return True
+
+
+def atom_has_char(atom, ch):
+    """uninterpreted fact: the opaque string piece `atom` contains the character `ch`"""
+    return z3.Bool("has_char[%s,%d]" % (atom.name, ord(ch)))
 
 
 def str_contains(hay, needle):
